@@ -260,7 +260,7 @@ def map_subset_to_sample_augmented(subset_vect, cycle_vect, ii, phase):
 def map_sample_to_subset(subset_vect, cycle_vect, ii):
     """Which subset cycle does the ii-th sample belong to?"""
     all_cycle_ind = map_sample_to_cycle(cycle_vect, ii)
-    if all_cycle_ind is None:
+    if all_cycle_ind is None or all_cycle_ind < 0:
         return None
     return map_cycle_to_subset(subset_vect, all_cycle_ind)
 
